@@ -252,6 +252,28 @@ def run(chk):
                     # put the attributes back for the next operation
                     root.req("PUT", "/bklock/" + real, query={"tagging": ""}, body=TAG % (b"x" if real == "x" else b"d"))
                     root.req("PUT", "/bklock/" + real, query={"legal-hold": ""}, body=b"<LegalHold><Status>OFF</Status></LegalHold>")
+        # ---- a write to the file key "e" never replaces the (childless) directory object "e/"
+        chk.require(root.req("PUT", "/bklock/e/", body=b"", headers={"x-amz-meta-kind": "dirobj"}).status == 200, "c04:setup", "PUT of the directory object e/ failed")
+        root.req("PUT", "/bklock/e/", query={"tagging": ""}, body=TAG % b"e")
+        for opname in ("PutObject", "CopyObject", "CompleteMultipartUpload"):
+            before = attrs_of("e/")
+            if opname == "PutObject": r = root.req("PUT", "/bklock/e", body=b"file-e")
+            elif opname == "CopyObject": r = root.req("PUT", "/bklock/e", headers={"x-amz-copy-source": "bklock/x"})
+            else:
+                r0 = root.req("POST", "/bklock/e", query={"uploads": ""}); uid_ = r0.xml().findtext("UploadId") if r0.status == 200 and r0.xml() is not None else ""
+                rp = root.req("PUT", "/bklock/e", query={"partNumber": "1", "uploadId": uid_}, body=b"part-e")
+                r = root.req("POST", "/bklock/e", query={"uploadId": uid_}, body=("<CompleteMultipartUpload><Part><PartNumber>1</PartNumber><ETag>%s</ETag></Part></CompleteMultipartUpload>" % rp.headers.get("etag", "")).encode())
+                root.req("DELETE", "/bklock/e", query={"uploadId": uid_})
+            after_ = attrs_of("e/")
+            chk.case(("other-kind", "e/", "e", opname), True); chk.traces += 1
+            chk.count("other-kind:%s:%d" % (opname, r.status))
+            row = {"stored_key": "e/", "request": "%s on key 'e'" % opname, "status": r.status, "code": r.code, "attributes_before": before, "attributes_after": after_}
+            rows.append(row)
+            if after_ != before:
+                chk.fail("c04:other-kind-key-replaced:" + opname, "%s on the key 'e' answered %d %s and changed the directory object 'e/' from %r to %r" % (opname, r.status, r.code, before, after_), row)
+                for v_ in (attrs_of("e")[8] or []): root.req("DELETE", "/bklock/e", query={"versionId": v_[1]})
+                root.req("DELETE", "/bklock/e")
+                root.req("PUT", "/bklock/e/", body=b"", headers={"x-amz-meta-kind": "dirobj"}); root.req("PUT", "/bklock/e/", query={"tagging": ""}, body=TAG % b"e")
         chk.tie("gateway still running", g.alive(), g.log_tail())
     chk.samples.extend(rows[7:10])
 
